@@ -162,7 +162,7 @@ def rmax_expansion(model: Model):
 
 
 def check(model: Model, tier: str):
-    model.use_inlined("_decomposition.to_tt", "_decomposition.mat_to_tt", "_decomposition.round_tt")   # helpers around the rank selection are read in place
+    model.use_inlined("_decomposition.to_tt", "_decomposition.mat_to_tt", "_decomposition.round_tt", "_tt_base.TT.round")   # helpers around the rank selection are read in place
     obs = []
     from ..e5 import obligations as e5ob
     from .common import cross_reference
